@@ -13,7 +13,7 @@ func init() {
 	register(&propertyDef{
 		id:    "C13",
 		title: "a loop step returns per-item results in item order within its parallelism",
-		rules: []ruleFunc{c13R1, c13R2, c13R3, c13R4, c13R5, c13R6},
+		rules: []ruleFunc{c13R1, c13R2, c13R3, c13R4, c13R5, c13R6, c13R7},
 		decided: "results are index-addressed, not arrival-ordered: each item goroutine stores its result under the range index of the very item it executed, into a slice made with the item count, and nothing appends to it (R1); " +
 			"the semaphore's capacity is the received parallelism, the sub-run is dominated by the successful acquisition and the release is deferred (R2); the step reports `error` exactly when the error map is non-empty, with the messages and the non-nil results keyed by item index, else `success` with the result slice (R3, plus C08.R5: non-success sub-run outputs count as failures); " +
 			"every item is validated against the sub-workflow input before the hand-over (R4); the shared result variables are written under the step lock and read after Wait (R5 = C17.R2). Shared: acquisition and release of the parallelism slot can always give up when the step is closed (R6 = C06.R1).",
@@ -407,6 +407,84 @@ func c13R2(c *Ctx) {
 			okSrc = fromSchema && hasDefault
 		})
 		c.verdict(okSrc, rule, "parallelism-source", c.pos(fn.Pos()), "parallelism is the validated `parallelism` input or the default 1", "the parallelism handed to the step goroutine is not the validated `parallelism` input (default 1)")
+		// the schema that validates it has a minimum of at least 1: with 0 the semaphore is an unbuffered channel nobody
+		// receives from, no item ever gets a slot and the step never finishes
+		minOK, minWhy := false, "the schema that validates `parallelism` was not found"
+		c.eachInstrLogical(fn, func(r instrRef) {
+			call, ok := r.I.(*ssa.Call)
+			if !ok || !isMethodNamed(call, "schema.PropertySchema", "Unserialize") {
+				return
+			}
+			recv := callRecv(call.Common())
+			var g *ssa.Global
+			derivesFrom(recv, func(v ssa.Value) bool {
+				if gl, ok := v.(*ssa.Global); ok {
+					g = gl
+					return true
+				}
+				return false
+			})
+			if g == nil {
+				return
+			}
+			for _, f2 := range c.RepoFns {
+				if f2.Pkg != fn.Pkg || f2.Parent() != nil || !(f2.Name() == "init" || strings.HasPrefix(f2.Name(), "init#")) {
+					continue
+				}
+				eachInstr(f2, func(r2 instrRef) {
+					st, ok := r2.I.(*ssa.Store)
+					if !ok || st.Addr != ssa.Value(g) {
+						return
+					}
+					minWhy = "the `parallelism` schema declares no constant minimum"
+					// NewPropertySchema(NewIntSchema(PointerTo(<min>), …), …): follow the constructor arguments
+					strip := func(v ssa.Value) ssa.Value {
+						for i := 0; i < 4; i++ {
+							switch x := v.(type) {
+							case *ssa.MakeInterface:
+								v = x.X
+							case *ssa.ChangeInterface:
+								v = x.X
+							case *ssa.ChangeType:
+								v = x.X
+							default:
+								return v
+							}
+						}
+						return v
+					}
+					var intSchema *ssa.Call
+					var find func(v ssa.Value, d int)
+					find = func(v ssa.Value, d int) {
+						c2, ok := strip(v).(*ssa.Call)
+						if !ok || d > 3 {
+							return
+						}
+						if strings.HasSuffix(calleeName(c2.Common()), "schema.NewIntSchema") {
+							intSchema = c2
+							return
+						}
+						for _, a := range c2.Call.Args {
+							find(a, d+1)
+						}
+					}
+					find(st.Val, 0)
+					if intSchema == nil || len(intSchema.Call.Args) < 1 {
+						return
+					}
+					if pc, ok := strip(intSchema.Call.Args[0]).(*ssa.Call); ok && len(pc.Call.Args) == 1 {
+						if k, isC := constInt(pc.Call.Args[0]); isC {
+							if k >= 1 {
+								minOK = true
+							} else {
+								minWhy = fmt.Sprintf("the `parallelism` schema accepts %d", k)
+							}
+						}
+					}
+				})
+			}
+		})
+		c.verdict(minOK, rule, "parallelism-minimum", c.pos(fn.Pos()), "the schema that validates `parallelism` has a constant minimum >= 1", minWhy+": make(chan struct{}, 0) is an unbuffered channel that nobody receives from, so no item ever gets a slot, the step stays `running` and the run never ends")
 	}
 }
 
@@ -653,4 +731,62 @@ func isLoopIndex(v ssa.Value, li *loopInfo) bool {
 		}
 	}
 	return false
+}
+
+// C13.R7 every item that was run is accounted for.
+func c13R7(c *Ctx) {
+	const rule = "C13.R7"
+	c.explain("C13.R7 in the per-item goroutine, every path from the return of the sub-workflow's Execute to the end of the goroutine stores either the item's result (an element of the result slice) or the item's message (an update of the error map): an item that ran but left neither is reported as a success with a hole — the failing indexes are then not identified (and the hole fails the parent's output validation)")
+	ig := c.foreachItemGo()
+	if ig == nil {
+		return
+	}
+	n := 0
+	for _, f := range ig.fns(c) {
+		eachInstr(f, func(r instrRef) {
+			call, ok := r.I.(*ssa.Call)
+			if !ok || !call.Common().IsInvoke() || call.Common().Method.Name() != "Execute" {
+				return
+			}
+			n++
+			records := func(in ssa.Instruction) bool {
+				switch x := in.(type) {
+				case *ssa.MapUpdate:
+					return true
+				case *ssa.Store:
+					if ia, ok := x.Addr.(*ssa.IndexAddr); ok {
+						if _, isSlice := ia.X.Type().Underlying().(*types.Slice); isSlice {
+							return true
+						}
+					}
+				case *ssa.Call:
+					// a helper owned by the goroutine that records
+					for _, callee := range c.CG().Callees(x) {
+						has := false
+						c.eachInstrLogical(callee, func(r2 instrRef) {
+							switch y := r2.I.(type) {
+							case *ssa.MapUpdate:
+								has = true
+							case *ssa.Store:
+								if ia, ok := y.Addr.(*ssa.IndexAddr); ok {
+									if _, isSlice := ia.X.Type().Underlying().(*types.Slice); isSlice {
+										has = true
+									}
+								}
+							}
+						})
+						if has && isRepoFn(callee) && pkgPathOf(callee) == pkgForeach {
+							return true
+						}
+					}
+				}
+				return false
+			}
+			p := c.findPath(f, call, records, isReturn)
+			key := fmt.Sprintf("item-recorded@%s#%d", c.fnName(f), n)
+			c.verdict(p == nil, rule, key, c.instrPos(call), "after the sub-run returns, every path records a result or a message for the item",
+				"the item goroutine can end after the sub-run returned without storing a result or a message for the item: the item is neither a success nor an identified failure", p...)
+		})
+	}
+	c.minCount(rule, "sub-run calls in the item goroutine", n, 1)
 }
